@@ -142,6 +142,46 @@ def main(ctx: Ctx):
                 ctx.fail('differs-from-direct:remote:big:slow-reader', f'remote worker returning 4 MiB while the parent drains the connection slowly: {repr(got)[:120]}', {'target': 'f_bytes', 'args': [4 << 20], 'kind': 'remote', 'scenario': 'slow-reader'})
         finally:
             R._recv_exact = orig_exact
+        # ---- a remote target may be silent for any length of time: the connections the parent waits on must not carry a
+        #      timeout (a timeout T makes every target that runs longer than T come back as "no outcome")
+        silent = 12.0 if T else 0.0
+        for persistent in (False, True):
+            sess.write_conf(None)
+            if persistent:
+                from pyworkers.persistent_remote import PersistentRemoteWorker
+                w = PersistentRemoteWorker(TG.f_after, host=sess.addr(), main_path='')
+            else:
+                w = mk('remote', sess, TG.f_after, (0.3, 'late'), {}, False)
+            socks = {n: getattr(w, n) for n in ('_socket', '_ctrl_sock') if hasattr(getattr(w, n, None), 'gettimeout')}
+            limits = {n: s_.gettimeout() for n, s_ in socks.items() if s_.gettimeout() is not None}
+            ctx.case(('remote-silence', persistent), True, sample={'case': 'timeouts on the parent-side connections of a remote worker', 'persistent': persistent, 'timeouts': limits or None})
+            try:
+                w.terminate(0.5, force=True)
+            except Exception:
+                pass
+            wait_for = max([silent] + [t + 1.5 for t in limits.values() if t <= 25])
+            if wait_for:
+                # run a target that is silent for longer than the shortest limit (thorough tier: 12 s in any case)
+                sess.write_conf(None)
+                if persistent:
+                    w = PersistentRemoteWorker(TG.f_after, host=sess.addr(), main_path='')
+                    w.enqueue(wait_for, 'late')
+                    st, r = watchdog(lambda: w.next_result(timeout=wait_for + 15), wait_for + 30)
+                    got = ('ok', r) if st == 'ok' else (st, repr(r)[:80])
+                else:
+                    w = mk('remote', sess, TG.f_after, (wait_for, 'late'), {}, False)
+                    st, r = watchdog(lambda: w.wait(wait_for + 15), wait_for + 30)
+                    got = observed(w) if st == 'ok' and r else ('not-finished', st, r)
+                try:
+                    w.terminate(0.5, force=True)
+                except Exception:
+                    pass
+                if got != ('ok', 'late'):
+                    ctx.fail(f'differs-from-direct:remote:silent-target', f'{"persistent " if persistent else ""}remote worker whose target returns after {wait_for:.1f} s of silence: {got!r} instead of ("ok", "late")'
+                             + (f' (timeouts on the connections: {limits})' if limits else ''), {'kind': 'remote', 'scenario': 'silent-target', 'persistent': persistent, 'seconds': wait_for})
+            elif limits:
+                ctx.fail('differs-from-direct:remote:silent-target', f'the parent-side connections of a remote worker carry timeouts {limits}: a target that runs longer comes back without its outcome',
+                         {'kind': 'remote', 'scenario': 'silent-target', 'persistent': persistent, 'seconds': max(limits.values()) + 1.5})
         # ---- not-run workers and the create() table
         from pyworkers.worker import Worker, WorkerType
         from pyworkers.persistent import PersistentWorker
@@ -179,3 +219,33 @@ def main(ctx: Ctx):
 
 def replay(case):
     print(case)
+    sess = inject.Session()
+    try:
+        if case.get('scenario') == 'silent-target':
+            secs = float(case.get('seconds', 12))
+            if case.get('persistent'):
+                from pyworkers.persistent_remote import PersistentRemoteWorker
+                sess.write_conf(None)
+                w = PersistentRemoteWorker(TG.f_after, host=sess.addr(), main_path='')
+                w.enqueue(secs, 'late')
+                print('result after', secs, 's of silence:', watchdog(lambda: w.next_result(timeout=secs + 15), secs + 30))
+            else:
+                w = mk('remote', sess, TG.f_after, (secs, 'late'), {}, False)
+                st, r = watchdog(lambda: w.wait(secs + 15), secs + 30)
+                print('outcome after', secs, 's of silence:', observed(w) if st == 'ok' and r else ('not-finished', st, r), '(direct call: ("ok", "late"))')
+            try:
+                w.terminate(0.5, force=True)
+            except Exception:
+                pass
+        elif 'target' in case and 'kind' in case and isinstance(case.get('args'), list):
+            fn = getattr(TG, case['target'])
+            w = mk(case['kind'], sess, fn, tuple(case['args']), case.get('kwargs') or {}, case.get('via_create', False))
+            st, r = watchdog(lambda: w.wait(20), 40)
+            print('worker :', observed(w) if st == 'ok' and r else ('not-finished', st, r))
+            print('direct :', direct(fn, tuple(case['args']), case.get('kwargs') or {}))
+            try:
+                w.terminate(0.5, **({'force': True} if case['kind'] != 'thread' else {}))
+            except Exception:
+                pass
+    finally:
+        sess.close()
